@@ -76,16 +76,70 @@ func (x *Exec) libCall2(s *State, site ssa.Instruction, fn *ssa.Function, name s
 		k(s, x.freshResult(s, site, res))
 		return true
 	case "bufio.NewScanner":
-		x.used(name + ": returns a non-nil reader")
-		var facts []*Term
-		v := x.E.freshVal(res.At(0).Type(), x.siteTag(site)+".rd", &facts)
-		switch p := v.(type) {
-		case *PtrV:
-			s.assume(Not(p.Nil))
-		case *IfaceV:
-			s.assume(Not(p.Nil))
+		// A line scanner over a file of the ghost file system. consumed: the text
+		// of the file read so far; line: the current token; failed: the scan ended
+		// with an error (what Err() reports).
+		x.used(name + ": line scanner over the ghost file (path), nothing consumed yet")
+		elem := res.At(0).Type().(*types.Pointer).Elem()
+		o := x.E.newObject(x.siteTag(site)+":scanner", elem)
+		path := x.freshStr(s, site, "scan.path")
+		if iv, ok := args[0].(*IfaceV); ok && iv.Dyn != nil && typeName(iv.Dyn) == "*os.File" {
+			if pv, ok := iv.V.(*PtrV); ok && pv.Obj != nil {
+				path = x.absGet(s, pv, "path")
+			}
 		}
-		k(s, v)
+		s.heap[o.id] = &AbsV{Typ: elem, F: map[string]Val{"path": path, "consumed": Str(""), "line": Str(""), "failed": TFalse}}
+		k(s, &PtrV{Nil: TFalse, Obj: o, Elem: elem})
+		return true
+	case "(*bufio.Scanner).Scan":
+		x.used(name + ": either the next line (text up to a newline, or the unterminated rest) becomes the token, or the scan ends: at the end of the file, or with an error (token too long, read error) wherever it is")
+		x.recvNonNil(s, site, args[0], name)
+		pv, _ := args[0].(*PtrV)
+		a, isAbs := x.load(s, pv).(*AbsV)
+		if !isAbs {
+			k(s, x.freshResult(s, site, res))
+			return true
+		}
+		path, consumed := a.F["path"].(*Term), a.F["consumed"].(*Term)
+		failed0, _ := a.F["failed"].(*Term)
+		ok := Var(x.siteTag(site)+".scan.ok", SBool)
+		fail := Var(x.siteTag(site)+".scan.fail", SBool)
+		L := x.freshStr(s, site, "scan.line")
+		data := Select(x.fsGet(s, "fsData"), path)
+		withNL := Concat(consumed, L, Str("\n"))
+		s.assume(Implies(ok, And(Not(StrContains(L, Str("\n"))), Or(StrPrefixOf(withNL, data), And(Eq(data, Concat(consumed, L)), Gt(StrLen(L), Int(0)))))))
+		s.assume(Implies(And(Not(ok), Not(fail)), Eq(data, consumed)))
+		s.assume(Implies(failed0, Not(ok))) // a failed scanner stays stopped
+		na := &AbsV{Typ: a.Typ, F: map[string]Val{
+			"path":     path,
+			"consumed": Ite(ok, Ite(StrPrefixOf(withNL, data), withNL, Concat(consumed, L)), consumed),
+			"line":     Ite(ok, L, Str("")),
+			"failed":   Ite(ok, failed0, Or(failed0, fail)),
+		}}
+		x.store(s, pv, na)
+		k(s, ok)
+		return true
+	case "(*bufio.Scanner).Text":
+		x.used(name + ": the current token")
+		x.recvNonNil(s, site, args[0], name)
+		if pv, ok := args[0].(*PtrV); ok {
+			if a, ok := x.load(s, pv).(*AbsV); ok {
+				k(s, a.F["line"].(*Term))
+				return true
+			}
+		}
+		k(s, x.freshResult(s, site, res))
+		return true
+	case "(*bufio.Scanner).Err":
+		x.used(name + ": non-nil iff the scan ended with an error")
+		x.recvNonNil(s, site, args[0], name)
+		e := x.freshErr(s, site, "scan.err")
+		if pv, ok := args[0].(*PtrV); ok {
+			if a, ok := x.load(s, pv).(*AbsV); ok {
+				s.assume(Eq(e.Nil, Not(a.F["failed"].(*Term))))
+			}
+		}
+		k(s, e)
 		return true
 	case "(*bufio.Reader).ReadByte":
 		x.used(name + ": returns the next byte or an error")
@@ -93,7 +147,7 @@ func (x *Exec) libCall2(s *State, site ssa.Instruction, fn *ssa.Function, name s
 		s.assume(And(Ge(b, Int(0)), Le(b, Int(255))))
 		k(s, &TupleV{E: []Val{b, x.freshErr(s, site, "rb.err")}})
 		return true
-	case "(*bufio.Scanner).Scan", "(*bufio.Scanner).Text", "(*bufio.Scanner).Err", "(*bufio.Reader).ReadString":
+	case "(*bufio.Reader).ReadString":
 		x.used(name)
 		k(s, x.freshResult(s, site, res))
 		return true
@@ -104,6 +158,45 @@ func (x *Exec) libCall2(s *State, site ssa.Instruction, fn *ssa.Function, name s
 	case "(*golang.org/x/crypto/ssh.ServerConfig).AddHostKey", "golang.org/x/crypto/ssh.ParsePrivateKey", "golang.org/x/crypto/ssh.DiscardRequests", "golang.org/x/crypto/ssh.NewServerConn", "golang.org/x/crypto/ssh.Unmarshal":
 		x.used(name + " (no effect on verified state)")
 		k(s, x.freshResult(s, site, res))
+		return true
+	case "golang.org/x/crypto/ssh.Dial", "(*golang.org/x/crypto/ssh.Client).NewSession":
+		x.used(name + ": a non-nil result unless it fails (the host key callback of the configuration is asked before Dial succeeds: library behaviour, trusted)")
+		r := x.freshResult(s, site, res)
+		if tv, ok := r.(*TupleV); ok && len(tv.E) == 2 {
+			if pv, ok := tv.E[0].(*PtrV); ok {
+				if ev, ok := tv.E[1].(*IfaceV); ok {
+					s.assume(Implies(ev.Nil, Not(pv.Nil)))
+				}
+			}
+		}
+		k(s, r)
+		return true
+	case "golang.org/x/crypto/ssh/knownhosts.New":
+		x.used(name + ": a non-nil callback unless it fails")
+		e := x.freshErr(s, site, "kh.err")
+		id := x.freshInt(s, site, "kh.cb$id")
+		s.assume(Implies(e.Nil, Not(Eq(id, Int(0)))))
+		sig, _ := under(res.At(0).Type()).(*types.Signature)
+		k(s, &TupleV{E: []Val{&FuncV{Nil: Eq(id, Int(0)), Opaque: id, Sig: sig}, e}})
+		return true
+	case "golang.org/x/crypto/ssh/knownhosts.Line":
+		// Line(addresses, key): a deterministic function of the first address and the key
+		x.used(name + ": ufs_khline(first address, key)")
+		addr := Str("")
+		if sv, ok := args[0].(*SliceV); ok && sv.Obj != nil {
+			addr = Select(x.E.objVal(s, sv.Obj).(*ArrV).T, sv.Off)
+		}
+		keyID := Int(0)
+		if iv, ok := args[1].(*IfaceV); ok && iv.Opaque != nil {
+			keyID = iv.Opaque
+		}
+		r := UF("ufs_khline", SString, addr, keyID)
+		s.assume(Not(StrContains(r, Str("\n"))))
+		k(s, r)
+		return true
+	case "golang.org/x/crypto/ssh/knownhosts.Normalize":
+		x.used(name + ": ufs_khnormalize(address)")
+		k(s, UF("ufs_khnormalize", SString, T(0)))
 		return true
 	case "golang.org/x/crypto/ssh.ParseAuthorizedKey":
 		// ParseAuthorizedKey(in) skips blank, comment and unparsable lines and
